@@ -85,6 +85,10 @@ pub fn leave_crate() -> DepthGuard {
         DepthGuard(old)
     })
 }
+/// is control inside the crate right now (not in a callback into harness code)?
+pub fn in_crate() -> bool {
+    DEPTH.with(|d| d.get() > 0)
+}
 pub fn in_crate_allocs() -> u64 {
     COUNT.with(|c| c.get())
 }
